@@ -420,6 +420,9 @@ func GenWorld(r *rand.Rand, o WorldOpts) *World {
 				if o.HostileNames && r.Intn(3) == 0 {
 					name = hostileDefNames[r.Intn(len(hostileDefNames))]
 				}
+				if _, dup := ps[name]; dup {
+					continue // never overwrite an element: nested targets were registered under it
+				}
 				toks := []string{"parameters", name}
 				if o.Chains && r.Intn(5) < 2 {
 					// a shared parameter that is itself a $ref holder: hop of a chain
